@@ -1132,7 +1132,7 @@ class PDSLabelEncoder(ODLEncoder):
                     f"precision."
                 )
             else:
-                s += f":{value:%S}.{ms}"
+                s += f":{value:%S}.{ms:03d}"
         elif value.second:
             s += f":{value:%S}"
 
